@@ -152,7 +152,8 @@ def get_count__total_expansion__start_size(length, total_expansion, start_size):
         d_min = start_size * total_expansion
 
     if abs(total_expansion - 1) < constants.TOL:
-        return int(length / d_min)
+        # round up: cells must not be larger than requested (and there must be at least one)
+        return int(np.ceil(length / d_min))
 
     def fcnt(cnt):
         return (1 - total_expansion ** (cnt / (cnt - 1))) / (
